@@ -182,6 +182,15 @@ def find_obl(lines, line_no, line_end=None):
     return None
 
 
+def in_proof_fn(lines, line_no):
+    """is line_no inside (the signature/spec of) a `proof fn`?"""
+    for k in range(line_no, 0, -1):
+        mm = re.match(r'\s*(?:pub\s+)?((?:proof\s+|spec\s+|exec\s+|open\s+|closed\s+|broadcast\s+)*)fn\s+[A-Za-z0-9_]+', lines[k - 1])
+        if mm:
+            return 'proof' in mm.group(1)
+    return False
+
+
 def enclosing_fn(lines, line_no):
     """name of the function containing line_no; for a method of an `impl .. for Range<u8>` style block the
     self type is appended so instances of one generic method get distinct obligation names."""
@@ -336,7 +345,15 @@ def _run_unit(unit_dir, repo, workdir, rlimit=None, extra_args=None, timeout=900
                  'function': fn_name,
                  'in_real_code': (frag or sec_frag).what if (frag or sec_frag) else None,
                  'rendered': d.get('rendered', '')[:3000]}
-        if any(k in low for k in UNDECIDED_MSGS) and not any(k in low for k in VIOLATION_MSGS):
+        # untagged `assert` in a proof block / precondition of a lemma call: a step of OUR proof script, not a clause
+        # of a contract.  Its failure means the script no longer replays on this code -> undecided, never an alarm.
+        proof_internal = (not find_obl(lines, ln, sp.get('line_end'))) and (
+            'assertion failed' in low or 'assertion not satisfied' in low
+            or ('precondition not satisfied' in low and in_proof_fn(lines, ln)))
+        if proof_internal:
+            entry['message'] = 'proof step of the verification script does not replay: ' + msg
+            undec.append(entry)
+        elif any(k in low for k in UNDECIDED_MSGS) and not any(k in low for k in VIOLATION_MSGS):
             undec.append(entry)
         elif vr.get('encountered-vir-error'):
             undec.append(entry)
